@@ -1109,6 +1109,23 @@ def _sh_sqlite_connect(*a, **kw):
     return c
 
 
+def _sh_rmtree(path, ignore_errors=False, onerror=None, *a, **kw):
+    """shutil.rmtree with one injectable fault: nothing below `path` can be removed (what a non-root user meets
+    when the tree holds read-only directories - tar restores the modes of archived outputs)"""
+    s = CUR
+    if s is not None and is_main() and not s.in_cb and (s.op or {}).get("rmtree_fails") and os.path.isdir(path) \
+            and os.listdir(path):
+        s.count("fault.rmtree_cannot_remove_tree")
+        s.emit("fs", "rmtree-failed", os.fspath(path)[len(s.root_s):])
+        if ignore_errors:
+            return None
+        raise PermissionError(errno.EACCES, "Permission denied", os.fspath(path))
+    return REAL_RMTREE(path, ignore_errors, onerror, *a, **kw)
+
+
+REAL_RMTREE = shutil.rmtree
+
+
 def _sh_cpu_count():
     s = CUR
     if s is None:
@@ -1134,6 +1151,13 @@ def _fs_logger(name, real, path_arg):
             pass
         s.kill_instant(None, name, "call")
         kf = getattr(s, "kill_fs", None)
+        if kf is not None and kf.get("name") == name and (kf.get("match") or kf.get("exclude")):
+            try:
+                pth = os.fspath(a[path_arg])
+            except Exception:
+                pth = ""
+            if (kf.get("match") and kf["match"] not in pth) or (kf.get("exclude") and kf["exclude"] in pth):
+                kf = None       # this call is not one of the counted ones
         if kf is not None and kf.get("name") == name:
             s.fs_calls[name] = s.fs_calls.get(name, 0) + 1
             if s.fs_calls[name] == kf.get("n", 1) and kf.get("when") == "call":
@@ -1283,6 +1307,7 @@ def install():
     sqlite3.connect = _sh_sqlite_connect
     multiprocessing.cpu_count = _sh_cpu_count
     os.mkdir = _sh_mkdir
+    shutil.rmtree = _sh_rmtree
     os.symlink = _fs_logger("symlink", REAL.symlink, 1)
     os.unlink = _fs_logger("unlink", REAL.unlink, 0)
     concurrent.futures.ThreadPoolExecutor = _ExecutorSwitch
